@@ -49,8 +49,19 @@ def lake_build(targets):
 
 
 def cargo_build():
-    lock = os.path.join(HARNESS, "Cargo.lock")
+    # signal-hook's build.rs compiles extract.c through `cc`, which emits rerun-if-env-changed
+    # directives only; cargo then does not notice an edited extract.c. Force that package to be
+    # rebuilt whenever the C file's content differs from what the last build used.
+    cfile = os.path.join(REPO, "src", "low_level", "extract.c")
+    stamp = os.path.join(HARNESS, "target", ".extract_c.sha1")
+    h = hashlib.sha1(open(cfile, "rb").read()).hexdigest() if os.path.exists(cfile) else "none"
+    old = open(stamp).read().strip() if os.path.exists(stamp) else ""
+    if h != old:
+        sh(["cargo", "clean", "--offline", "-p", "signal-hook"], cwd=HARNESS)
     rc, out, err, dt = sh(["cargo", "build", "--offline", "-q"], cwd=HARNESS)
+    if rc == 0:
+        os.makedirs(os.path.dirname(stamp), exist_ok=True)
+        open(stamp, "w").write(h)
     if rc != 0:
         raise Broken("harness-build", (out + err)[-4000:])
     return dt
